@@ -71,7 +71,6 @@ def main():
             print(p, meta['ran'][-1]['verdict'], first[:1])
     finally:
         sh('git -C /repo worktree remove --force %s' % scr)
-        shutil.rmtree('/verif/replay', ignore_errors=True)
     out = '/verif/seeded/%s-%s' % (a.prop, a.tag)
     os.makedirs(out, exist_ok=True)
     shutil.copy(a.patch, os.path.join(out, 'patch.diff'))
